@@ -22,7 +22,8 @@ Export ListNotations.
 Local Open Scope Z_scope.
 
 Inductive region := RIn | ROut.
-Inductive val := VInt (z : Z) | VPtr (r : region) (off : Z) | VNull | VUndef.
+Inductive val := VInt (z : Z) | VPtr (r : region) (off : Z) | VNull | VUndef
+  | VBytes (l : list Z).   (* only ever the value of the pseudo-variable "$strm": the unread bytes of the FILE when the stream is separate from the memory *)
 
 Inductive cty := TInt | TUChar | TChar | TUInt | TSizeT.
 Inductive binop := Add | Sub | Mul | Div | Shl | Shr | BAnd | BOr | BXor | Lt | Le | Gt | Ge | Eq | Ne.
@@ -43,6 +44,7 @@ Inductive expr :=
 | EPreInc (x : string)
 | ECond (c a b : expr)
 | EBinU (op : binop) (a b : expr)      (* the operation carried out in unsigned int (32 bits, wraps) *)
+| ESizeAdd (a b : expr)                (* a + b carried out in size_t (64 bits, wraps) on two non-negative operands *)
 | EReadByte (x : string)               (* fread(&x, 1, 1, f) with x an unsigned char local: 1 and x set, or 0 at end of stream *)
 | EWriteByte (e : expr)                (* fwrite(&x, 1, 1, f): 1 and the byte appended, or 0 when the stream refuses it *)
 | EReadInt32 (x : string)              (* fread(p, sizeof(int), 1, f), p an int*: the cell x := the next four bytes, little-endian (the x86 host); 1, or 0 with the rest of the stream consumed *)
@@ -57,6 +59,7 @@ Inductive expr :=
 | EStrlen (p : expr)                   (* strlen(p): bytes up to the first NUL; a fault if there is none before the end of the memory *)
 | EPostAdd (x : string) (k : Z)        (* p++ / p-- on a pointer to elements of |k| bytes: the old value, x moved by k *)
 | EPreAdd (x : string) (k : Z)
+| EReadBuf (p n : expr)                (* fread(p, 1, n, f) into the caller's memory (stream separate from the memory): as many bytes as the stream still has, at most n; their number *)
 | ESeekCur (e : expr)                  (* fseek(f, e, SEEK_CUR) with e >= 0 on a regular file: the position moves on (also beyond the end), 0 *)
 | EPtrAdd (p e : expr)                 (* p + e on a char pointer *)
 | EPostDec (x : string)
@@ -151,6 +154,7 @@ Definition truth (v : val) : option bool :=
   | VPtr _ _ => Some true
   | VNull => Some false
   | VUndef => None
+  | VBytes _ => None
   end.
 
 Definition cast (t : cty) (v : val) : option val :=
@@ -224,6 +228,16 @@ Definition ptr_add (p : val) (z : Z) (s : state) : option val :=
   end.
 
 Definition fail_var : string := "$fail".
+(* the input stream: the pseudo-variable "$strm" when the frame has one (functions that read a stream
+   INTO memory: the memory is inb then), else inb itself (pure readers) *)
+Definition strm_var : string := "$strm".
+Definition stream_of (s : state) : list Z :=
+  match lookup strm_var (vars s) with Some (VBytes l) => l | _ => inb s end.
+Definition set_stream (l : list Z) (s : state) : state :=
+  match lookup strm_var (vars s) with
+  | Some (VBytes _) => match set_var strm_var (VBytes l) s with Some s1 => s1 | None => s end
+  | _ => {| vars := vars s; inb := l; outb := outb s |}
+  end.
 Definition junk : Z := 205.
 
 Fixpoint upd_range (i : nat) (xs : list Z) (l : list Z) : list Z :=
@@ -248,7 +262,7 @@ Fixpoint eval (e : expr) (s : state) : option (val * state) :=
   match e with
   | EConst z => match chk z with Some v => Some (v, s) | None => None end
   | ENull => Some (VNull, s)
-  | EVar x => match lookup x (vars s) with Some VUndef => None | Some v => Some (v, s) | None => None end
+  | EVar x => match lookup x (vars s) with Some VUndef => None | Some (VBytes _) => None | Some v => Some (v, s) | None => None end
   | EDeref p =>
     match eval p s with
     | Some (pv, s1) => match load pv s1 with Some v => Some (v, s1) | None => None end
@@ -342,18 +356,45 @@ Fixpoint eval (e : expr) (s : state) : option (val * state) :=
       end
     | _ => None
     end
+  | ESizeAdd a b =>
+    match eval a s with
+    | Some (VInt x, s1) =>
+      match eval b s1 with
+      | Some (VInt y, s2) => if (0 <=? x) && (0 <=? y) then Some (VInt ((x + y) mod 18446744073709551616), s2) else None
+      | _ => None
+      end
+    | _ => None
+    end
   | EReadByte x =>
-    match inb s with
-    | b :: r => match set_var x (VInt b) {| vars := vars s; inb := r; outb := outb s |} with
+    match stream_of s with
+    | b :: r => match set_var x (VInt b) (set_stream r s) with
                 | Some s1 => Some (VInt 1, s1) | None => None end
     | [] => Some (VInt 0, s)
     end
   | EReadInt32 x =>
-    match inb s with
+    match stream_of s with
     | b0 :: b1 :: b2 :: b3 :: r =>
-      match set_var x (VInt ((b0 + 256 * b1 + 65536 * b2 + 16777216 * b3 + 2147483648) mod u32 - 2147483648)) {| vars := vars s; inb := r; outb := outb s |} with
+      match set_var x (VInt ((b0 + 256 * b1 + 65536 * b2 + 16777216 * b3 + 2147483648) mod u32 - 2147483648)) (set_stream r s) with
       | Some s1 => Some (VInt 1, s1) | None => None end
-    | _ => Some (VInt 0, {| vars := vars s; inb := []; outb := outb s |})
+    | _ => Some (VInt 0, set_stream [] s)
+    end
+  | EReadBuf p n =>
+    match eval p s with
+    | Some (VPtr RIn o, s1) =>
+      match eval n s1 with
+      | Some (VInt k, s2) =>
+        match lookup strm_var (vars s2) with
+        | Some (VBytes l) =>
+          if (0 <=? k) && (0 <=? o) && (o + k <=? Z.of_nat (List.length (inb s2))) then
+            let got := firstn (Z.to_nat k) l in
+            match set_var strm_var (VBytes (skipn (Z.to_nat k) l)) {| vars := vars s2; inb := upd_range (Z.to_nat o) got (inb s2); outb := outb s2 |} with
+            | Some s3 => Some (VInt (Z.of_nat (List.length got)), s3) | None => None end
+          else None
+        | _ => None
+        end
+      | _ => None
+      end
+    | _ => None
     end
   | EWriteInt32 a =>
     match eval a s with
@@ -505,7 +546,7 @@ Fixpoint eval (e : expr) (s : state) : option (val * state) :=
   | ESeekCur a =>
     match eval a s with
     | Some (VInt k, s1) =>
-      if 0 <=? k then Some (VInt 0, {| vars := vars s1; inb := skipn (Z.to_nat k) (inb s1); outb := outb s1 |}) else None
+      if 0 <=? k then Some (VInt 0, set_stream (skipn (Z.to_nat k) (stream_of s1)) s1) else None
     | _ => None
     end
   | EPtrAdd p a =>
